@@ -261,6 +261,70 @@ func sortAll(c *core.Ctx, keys []int, r *core.Rand) bool {
 	}
 	// ordered variants on ints, strings, floats
 	{
+		// a defined slice type that HAS Len/Less/Swap methods of its own, ordering by absolute
+		// value: Sort orders by <, whatever methods the slice type carries
+		{
+			ab := absInts(append([]int(nil), keys...))
+			slices.Sort(ab)
+			for i := 1; i < len(ab); i++ {
+				if ab[i-1] > ab[i] {
+					return fail("Sort:slice-type-with-own-sort-methods", fmt.Sprintf("Sort on a defined slice type whose own Less orders by absolute value: element %d (%d) is less than its predecessor (%d) - Sort must order by <", i, ab[i], ab[i-1]))
+				}
+			}
+		}
+		// float slices with few distinct values and BOTH zeros: the result is a permutation,
+		// so the number of negative zeros stays what it was
+		if n >= 64 {
+			nz := math.Copysign(0, -1)
+			fz := make([]float64, n)
+			negs := 0
+			for i, k := range keys {
+				switch (k%5 + 5) % 5 {
+				case 0:
+					fz[i] = nz
+					negs++
+				case 1:
+					fz[i] = 0
+				default:
+					fz[i] = float64((k%5+5)%5) - 2.5
+				}
+			}
+			gz := append([]float64(nil), fz...)
+			slices.Sort(gz)
+			hz := append([]float64(nil), fz...)
+			slices.SortDesc(hz)
+			ga, ha := 0, 0
+			for i := range gz {
+				if gz[i] == 0 && math.Signbit(gz[i]) {
+					ga++
+				}
+				if hz[i] == 0 && math.Signbit(hz[i]) {
+					ha++
+				}
+				if i > 0 && (gz[i-1] > gz[i] || hz[i-1] < hz[i]) {
+					return fail("Sort:float64", "Sort/SortDesc on floats with few distinct values is out of order")
+				}
+			}
+			if ga != negs || ha != negs {
+				return fail("Sort:not-a-permutation[signed zeros]", fmt.Sprintf("Sort/SortDesc on %d floats holding %d negative zeros returned %d / %d negative zeros: the result is not a permutation of the input", n, negs, ga, ha))
+			}
+		}
+		// defined slice types: same order as with []int
+		{
+			type myInts []int
+			da, db := sort.IntSlice(append([]int(nil), keys...)), myInts(append([]int(nil), keys...))
+			dw := append([]int(nil), keys...)
+			sort.Ints(dw)
+			slices.Sort(da)
+			slices.SortDesc(db)
+			okD := len(da) == n && len(db) == n
+			for i := 0; okD && i < n; i++ {
+				okD = da[i] == dw[i] && db[i] == dw[n-1-i]
+			}
+			if !okD || slices.BinarySearch(da, 0) != sort.SearchInts(dw, 0) {
+				return fail("defined-slice-type", "Sort/SortDesc/BinarySearch instantiated with a defined slice type (sort.IntSlice, type myInts []int) give another result than with []int")
+			}
+		}
 		a := append([]int(nil), keys...)
 		slices.Sort(a)
 		want := append([]int(nil), keys...)
@@ -413,6 +477,22 @@ func sortAll(c *core.Ctx, keys []int, r *core.Rand) bool {
 		c.Count("shuffles", 3)
 	}
 	return true
+}
+
+// absInts is a slice type with sort.Interface methods of its own (ordering by absolute value).
+type absInts []int
+
+func (a absInts) Len() int      { return len(a) }
+func (a absInts) Swap(i, j int) { a[i], a[j] = a[j], a[i] }
+func (a absInts) Less(i, j int) bool {
+	x, y := a[i], a[j]
+	if x < 0 {
+		x = -x
+	}
+	if y < 0 {
+		y = -y
+	}
+	return x < y
 }
 
 type tgBig struct {
